@@ -32,7 +32,7 @@ Proof. intros n l H. rewrite firstn_length in H. apply firstn_all2. lia. Qed.
 Section Stream.
 Context {B T : Type}.
 Variable file : list B.
-Variable tag : T.
+Variable tag : nat -> T.
 Variable p : nat.
 Hypothesis Hp : 1 <= p.
 
@@ -49,7 +49,7 @@ Fixpoint all_full (w : list (list B)) : Prop :=
    out i, i+1, i+2, ... (offsets i*p, (i+1)*p, ...) each once: one more than the full chunks *)
 Lemma stream_loop_spec : forall fuel i env w t offs reqs,
   sloop fuel i env = SDone w t offs reqs ->
-  concat w = skipn (i * p) file /\ all_full w /\ t = tag /\
+  concat w = skipn (i * p) file /\ all_full w /\ t = tag (i + length (skipn (i * p) file) / p) /\
   offs = seq i (length offs) /\
   length offs = S (length (skipn (i * p) file) / p).
 Proof.
@@ -60,37 +60,38 @@ Proof.
   destruct (firstn p rest) as [|b0 d0] eqn:Ed; cbn [lempty] in H.
   - inversion H; subst. assert (rest = []) as Hr.
     { apply length_zero_iff_nil. pose proof (f_equal (@length B) Ed) as Hl. rewrite firstn_length in Hl. cbn in Hl. lia. }
-    rewrite Hr. cbn. repeat split; auto. rewrite Nat.div_0_l by lia. reflexivity.
+    rewrite Hr. cbn [concat all_full length]. rewrite Nat.div_0_l by lia. rewrite Nat.add_0_r. repeat split; auto.
   - rewrite <- Ed in H. destruct (is_last p (firstn p rest)) eqn:El.
     + inversion H; subst. unfold is_last in El. apply Nat.ltb_lt in El.
       pose proof (firstn_short_all p rest El) as Hall. rewrite Hall in *.
       cbn [concat all_full]. rewrite app_nil_r. split; [reflexivity|].
       assert (0 < length rest) as Hpos by (rewrite Ed; cbn; lia).
-      split; [lia|].
-      split; [reflexivity|]. split; [reflexivity|]. cbn [length]. rewrite Nat.div_small by lia. reflexivity.
+      split; [lia|]. rewrite Nat.div_small by lia. rewrite Nat.add_0_r.
+      split; [reflexivity|]. split; [reflexivity|]. reflexivity.
     + unfold is_last in El. apply Nat.ltb_ge in El.
       assert (length (firstn p rest) = p) as Hlen by (rewrite firstn_length in *; lia).
       destruct (sloop f (S i) env') as [w' t' o' r'|w'] eqn:Er; [|discriminate].
       inversion H; subst. destruct (IH _ _ _ _ _ _ Er) as (C & F & Tg & O & L).
-      replace (S i * p) with (i * p + p) in C, L by lia.
-      rewrite skipn_add in C, L. fold rest in C, L.
+      replace (S i * p) with (i * p + p) in C, L, Tg by lia.
+      rewrite skipn_add in C, L, Tg. fold rest in C, L, Tg.
       split; [cbn [concat]; rewrite C; apply firstn_skipn|].
       split.
       { cbn [all_full]. destruct w'; [|split; assumption].
         cbn in C. rewrite <- (firstn_skipn p rest) in El at 1. rewrite <- C, app_nil_r in El.
         rewrite Hlen. lia. }
-      split; [exact Tg|]. split.
+      assert (p <= length rest) as Hpl by (rewrite firstn_length in Hlen; lia).
+      assert (length rest / p = S (length (skipn p rest) / p)) as Hdiv.
+      { rewrite skipn_length. replace (length rest) with ((length rest - p) + 1 * p) at 1 by lia.
+        rewrite Nat.div_add by lia. lia. }
+      split; [rewrite Tg, Hdiv; f_equal; lia|]. split.
       { cbn [length seq]. f_equal. exact O. }
-      cbn [length]. rewrite L. rewrite skipn_length.
-      assert (p <= length rest) by (rewrite firstn_length in Hlen; lia).
-      replace (length rest) with ((length rest - p) + 1 * p) at 2 by lia.
-      rewrite Nat.div_add by lia. lia.
+      cbn [length]. rewrite L, Hdiv. reflexivity.
 Qed.
 
 Lemma stream_loop_S f i env :
   sloop (S f) i (false :: env) =
-  if lempty (blk file p i) then SDone [] tag [i] [i]
-  else if is_last p (blk file p i) then SDone [blk file p i] tag [i] [i]
+  if lempty (blk file p i) then SDone [] (tag i) [i] [i]
+  else if is_last p (blk file p i) then SDone [blk file p i] (tag i) [i] [i]
   else match sloop f (S i) env with
        | SDone w t o r => SDone (blk file p i :: w) t (i :: o) ([i] ++ r)
        | SEnv w => SEnv (blk file p i :: w)
@@ -164,7 +165,7 @@ Qed.
 Section Parallel.
 Context {B T : Type}.
 Variable file : list B.
-Variable tag : T.
+Variable tag : nat -> T.
 Variable p : nat.
 Variable threads : nat.
 Hypothesis Hp : 1 <= p.
@@ -205,7 +206,8 @@ Record PInv (s : pstate T) : Prop := {
   v_held : Forall (fun i => i < p_next s) (inflight (p_workers s));
   v_ready : p_ready s = true -> exists j, j < p_next s /\ size < (j + 1) * p;
   v_exit : In WExit (p_workers s) -> p_ready s = true;
-  v_typ : (p_ready s = true -> p_typ s = Some tag) /\ (forall t, p_typ s = Some t -> t = tag)
+  v_typ : (p_ready s = true -> p_typ s <> None) /\
+          (forall t, p_typ s = Some t -> exists j, j < p_next s /\ size < (j + 1) * p /\ t = tag j)
 }.
 
 Lemma nth_in_flat (f : wstate -> list nat) : forall ws w x i, nth_error ws w = Some x -> In i (f x) -> In i (flat_map f ws).
@@ -234,10 +236,13 @@ Qed.
 Theorem p_step_inv s e : PInv s -> PInv (p_step bempty blast tag threads s e).
 Proof.
   intros I. destruct I as [Ilen Iperm Iheld Iready Iexit Ityp].
-  assert (forall t', match p_typ s with Some t => Some t | None => Some tag end = Some t' -> t' = tag) as Htyp1.
-  { intros t' Ht. destruct (p_typ s) eqn:Et; [apply (proj2 Ityp); congruence|congruence]. }
-  assert (match p_typ s with Some t => Some t | None => Some tag end = Some tag) as Htyp2.
-  { destruct (p_typ s) eqn:Et; [f_equal; apply (proj2 Ityp); reflexivity|reflexivity]. }
+  assert (forall i, i < p_next s -> size < (i + 1) * p ->
+            (match p_typ s with Some t => Some t | None => Some (tag i) end <> None) /\
+            (forall t', match p_typ s with Some t => Some t | None => Some (tag i) end = Some t' ->
+                        exists j, j < p_next s /\ size < (j + 1) * p /\ t' = tag j)) as Htyp.
+  { intros i Hi1 Hi2. destruct (p_typ s) eqn:Et.
+    - split; [discriminate|]. intros t' Ht. inversion Ht; subst. apply (proj2 Ityp). reflexivity.
+    - split; [discriminate|]. intros t' Ht. inversion Ht; subst. exists i. auto. }
   destruct e as [w|w|w|w|w|]; cbn [p_step].
   - (* PCheck *)
     destruct (nth_error (p_workers s) w) as [[| |i|i|]|] eqn:En; try (constructor; assumption).
@@ -266,7 +271,7 @@ Proof.
       constructor; [lia|]. eapply Forall_impl; [|exact Iheld]. intros; cbn in *; lia.
     + intros Hr. destruct (Iready Hr) as (j & Hj1 & Hj2). exists j. split; [lia|exact Hj2].
     + intros Hin. apply set_nth_in in Hin. destruct Hin as [Hin|Hin]; [discriminate|]. apply Iexit; exact Hin.
-    + exact Ityp.
+    + split; [exact (proj1 Ityp)|]. intros t Ht. destruct (proj2 Ityp t Ht) as (j & J1 & J2 & J3). exists j. split; [lia|auto].
   - constructor; assumption.
   - (* PSend *)
     destruct (nth_error (p_workers s) w) as [[| |i|i|]|] eqn:En; try (constructor; assumption).
@@ -287,7 +292,8 @@ Proof.
         inversion F; assumption.
       * intros _. exists i. split; [exact Hlt|]. unfold ne in Eb. apply Nat.ltb_ge in Eb. nia.
       * reflexivity.
-      * split; [intros _; exact Htyp2|exact Htyp1].
+      * assert (size < (i + 1) * p) as Hsz by (unfold ne in Eb; apply Nat.ltb_ge in Eb; nia).
+        destruct (Htyp i Hlt Hsz) as [T1 T2]. split; [intros _; exact T1|exact T2].
     + assert (ne i = true) as Hne.
       { destruct (ne i) eqn:E; [reflexivity|]. apply blk_nil, lempty_nil in E. congruence. }
       destruct (length (p_queue s) <? threads) eqn:Eq; [|constructor; assumption].
@@ -316,7 +322,7 @@ Proof.
         try (rewrite set_nth_length; exact Ilen);
         try (rewrite (Permutation_filter ne _ _ Pm); exact Iperm);
         try (intros _; exists i; split; [exact Hlt|exact El]);
-        try (split; [intros _; exact Htyp2|exact Htyp1]).
+        try (destruct (Htyp i Hlt El) as [T1 T2]; split; [intros _; exact T1|exact T2]).
     + destruct (swap_worker s w (WSent i) WIdle En eq_refl ltac:(cbn; tauto)) as [Pm Fa].
       constructor; unfold p_set; cbn [p_next p_workers p_ready p_typ p_queue p_written]; auto;
         try (rewrite set_nth_length; exact Ilen);
@@ -375,7 +381,7 @@ Theorem p_terminal_correct evs :
   NoDup (p_written s) /\ 
   (forall i, In i (p_written s) <-> i * p < size) /\ 
   (forall x, apply_writes (p_written s) x = nth_error file x) /\ 
-  p_typ s = Some tag /\ 
+  (exists j, j < p_next s /\ size < (j + 1) * p /\ p_typ s = Some (tag j)) /\ 
   (forall i, i * p <= size -> i < p_next s).
 Proof.
   intros s Ht. pose proof (p_run_inv evs) as I. fold s in I.
@@ -412,6 +418,8 @@ Proof.
     { apply existsb_exists. exists (x / p). split; [exact Hi|].
       apply andb_true_iff; split; [apply Nat.leb_le; lia|apply Nat.ltb_lt; rewrite blk_length; lia]. }
     congruence. }
-  split; [apply (proj1 Ityp); exact Hr|exact Hall2].
+  split; [|exact Hall2].
+  destruct (p_typ s) as [t|] eqn:Et; [|exfalso; apply (proj1 Ityp Hr); reflexivity].
+  destruct (proj2 Ityp t eq_refl) as (j0 & J1 & J2 & J3). exists j0. split; [lia|]. split; [exact J2|]. rewrite J3; reflexivity.
 Qed.
 End Parallel.
